@@ -753,6 +753,9 @@ def unpack_dataclass(spec: ValueSpec) -> Optional[Expression]:
         if spec.builder.is_nailed:
             spec.builder.ensure_object_imported(spec.origin_type, cls_alias)
             return f"{cls_alias}.{method_name}({method_args})"
+        elif not hasattr(spec.attrs, method_name):
+            # the class refers to itself: its method is being compiled
+            return f"{spec.cls_attrs_name}.{method_name}({method_args})"
         else:
             method_name_alias = f"{cls_alias}_{method_name}"
             spec.builder.ensure_object_imported(
